@@ -162,7 +162,7 @@ class SQLiteAlterTableSQLResult(AlterTableSQLResult):
 
                 field_values[new_column] = qn(old_column)
 
-        field_initials = []
+        field_initial_params = {}
 
         # If we have any new fields, add their defaults.
         if new_initial:
@@ -177,13 +177,21 @@ class SQLiteAlterTableSQLResult(AlterTableSQLResult):
                     if embed_initial:
                         field_values[column] = initial
                     else:
-                        field_initials.append(initial)
+                        field_initial_params[column] = initial
 
                         if column in field_values:
                             field_values[column] = \
                                 'coalesce(%s, %%s)' % qn(column)
                         else:
                             field_values[column] = '%s'
+
+        # The parameters must be bound in the order that their placeholders
+        # appear in the list of selected values.
+        field_initials = [
+            field_initial_params[column]
+            for column in six.iterkeys(field_values)
+            if column in field_initial_params
+        ]
 
         # The SQLite documentation defines the steps that should be taken to
         # safely alter the schema for a table. Unlike most types of databases,
